@@ -33,9 +33,16 @@ class Count:
     def __init__(self):
         self.entered = 0
         self.states = []
+        self.frames = [[None]]      # one entry per eval() in progress (outermost first): the VM state its first node was given
+        self.foreign = 0            # node evaluations under a VM state that is not the one of the innermost eval in progress
 
     def enter(self, node, state):
         self.entered += 1
+        top = self.frames[-1]
+        if top[0] is None:
+            top[0] = state
+        elif top[0] is not state:
+            self.foreign += 1
         if not self.states or self.states[-1] is not state:
             if all(s is not state for s in self.states):
                 self.states.append(state)
@@ -247,7 +254,7 @@ def sweep(res, label, text, ast_spec, swallow, cached=False):
 
 # ------------------------------------------------------------------ histories
 
-HIST_CALLS = ['nested("1 + 1"); f(1)', 'nested("f(1)") + f(2)', 'f = v => v + 1', 'f = v => t(v) + t(v) + v', 'f = v => map(l, w => w + v)', 'f(1)', 'f(2) + f(3)', 'map(l, f)',
+HIST_CALLS = ['f = v => v + 1; nested("f(1)")', 'h9 = v => t(v); nested("map(l, h9) | len") + h9(1)', 'nested("1 + 1"); f(1)', 'nested("f(1)") + f(2)', 'f = v => v + 1', 'f = v => t(v) + t(v) + v', 'f = v => map(l, w => w + v)', 'f(1)', 'f(2) + f(3)', 'map(l, f)',
               'n', 'g9 = f; g9(1)', 'apply(f, 1)', 'sorted(l, f)']
 
 
@@ -264,7 +271,16 @@ def run_hist_call(res, hist, budgets):
         def entered(self):
             return cur[0].entered if cur[0] else 0
     names = host_names(log, Proxy())
-    names['nested'] = lambda src: parser().eval(src, names, max_ops_evaluated=50)
+
+    def nested(src):
+        # a host callback that evaluates: the nodes of that evaluation (and every lambda body it drives) belong to ITS budget
+        c = cur[0]
+        c.frames.append([None])
+        try:
+            return parser().eval(src, names, max_ops_evaluated=50)
+        finally:
+            c.frames.pop()
+    names['nested'] = nested
     outs = []
     earlier_states = []
     for prog, bud in zip(hist, budgets):
@@ -280,7 +296,7 @@ def run_hist_call(res, hist, budgets):
             o = 'err:' + type(e).__name__
         stale = [st for st in cnt.states if any(st is e for e in earlier_states)]
         earlier_states.extend(cnt.states)
-        outs.append((o, cnt.entered, bool(stale)))
+        outs.append((o, cnt.entered, bool(stale), cnt.foreign))
         res.count('evals')
     return outs
 
@@ -309,6 +325,12 @@ def work(task):
                 res.violation('history:stale-vm-state', 'node evaluations of a call were charged to the VM state of an EARLIER eval call',
                               {'history': hist, 'budget_of_last_call': None, 'K_of_last_call': None, 'expected': 'ok',
                                'observed': 'a VM state created by an earlier call was used again'})
+                continue
+            if any(o[3] for o in base):
+                res.violation('history:foreign-vm-state', 'node evaluations were charged to a VM state other than the one of the innermost '
+                              'eval call in progress (a nested eval made by a host callback must be judged on its own budget)',
+                              {'history': hist, 'budget_of_last_call': None, 'K_of_last_call': None, 'expected': 'ok',
+                               'observed': '%d node evaluations under a foreign VM state' % sum(o[3] for o in base)})
                 continue
             if any('nested(' in h for h in hist):
                 continue        # K would mix the nodes of the nested call (its own budget) with the outer ones
